@@ -1,1 +1,41 @@
-From QV Require Import Base Fields SrcFacts Msg Decoder Encoder.
+(* Properties_C01.v — the encoder emits conformant packets that decode back to the same message (name level proved). *)
+From QV Require Import Base Fields SrcFacts Msg Decoder Encoder WireSpec DecoderSafety DecoderComplete EncoderProofs.
+Local Open Scope N_scope.
+
+(* PARTIAL with respect to the full statement "wf_msg m -> Encodes (to_packet m) m /\ from_packet (to_packet m) = Ok m".
+   Proved: the part of the encoder that carries the compression logic.  For every buffer P written so far, every
+   compression map whose entries are good in P (each maps a suffix to an offset < 16 KiB at which that suffix is
+   conformantly encoded - the invariant MapOK, which writeName re-establishes: last conjunct), and every well-formed
+   name (1.. labels of 1..63 bytes without '.'), writeName
+     - advances the offset by exactly the number of bytes it appends,
+     - appends a conformant encoding of the name (relation NameAt: labels, then a zero byte or a pointer to an EARLIER
+       offset where the remaining labels are encoded; the map entry of a suffix is inserted before its bytes are
+       written, which the proof shows harmless because a pending entry is strictly longer than anything looked up),
+     - which the library's own parseName reads back as exactly that name, ending where the encoder ended,
+   as long as the name ends below 16 KiB (the bound of the property's quantifier: offsets >= 0x4000 do not fit a pointer).
+   The record and message layers (fixed-width fields, rdlength bookkeeping with the side buffer, counts, flags) are tied
+   on every run by: byte-for-byte comparison of the model's to_packet with the real toPacket, an independent strict
+   RFC 1035/6762 decoder applied to the real bytes, and the real fromPacket applied to them. *)
+Theorem C01_name_roundtrip_partial P m ls bs off' m' :
+  ls <> [] -> Forall wf_label ls -> MapOK P m ->
+  lenN P + lenN (join ls) + 2 <= 16384 ->
+  write_name (Some (join ls ++ [DOT])) (lenN P) m = (bs, off', m') ->
+  off' = lenN (P ++ bs) /\
+  NameAt (mem_of (P ++ bs)) (lenN (P ++ bs)) (lenN P) (lenN P) ls off' /\
+  decode_name (P ++ bs) (lenN P) = Ok (Some (join ls ++ [DOT]), off') /\
+  MapOK (P ++ bs) m'.
+Proof. exact (write_name_roundtrip P m ls bs off' m'). Qed.
+Print Assumptions C01_name_roundtrip_partial.
+
+(* the empty map is good, so the invariant can be started at the first name of a packet *)
+Theorem C01_empty_map_ok P : MapOK P [].
+Proof. intros k o []. Qed.
+Print Assumptions C01_empty_map_ok.
+
+(* non-vacuity: two names sharing a suffix; the second is written as one label and a pointer, and decodes back *)
+Example C01_example :
+  let hdr := repeat 0 12 in
+  let '(b1, o1, m1) := write_name (Some [97; 46; 98; 46]) 12 [] in
+  let '(b2, o2, m2) := write_name (Some [99; 46; 98; 46]) o1 m1 in
+  b2 = [1; 99; 192; 14] /\ decode_name (hdr ++ b1 ++ b2) o1 = Ok (Some [99; 46; 98; 46], o2).
+Proof. vm_compute. auto. Qed.
